@@ -118,10 +118,10 @@ theorem rel_parseDatetime (ext : Ext) (cells : List Cell) (f g : Fixer) (h : Rel
 theorem rel_parseColumn (ext : Ext) (unit : Str) (cells : List Cell) (f g : Fixer) (h : Rel f g) :
     RelE (parseColumn ext unit cells f) (parseColumn ext unit cells g) := by
   unfold parseColumn
-  by_cases h1 : unit = "text".toList
+  by_cases h1 : unit = uText
   · rw [if_pos h1, if_pos h1]; exact ⟨rfl, h⟩
   · rw [if_neg h1, if_neg h1]
-    by_cases h2 : unit = "onoff".toList
+    by_cases h2 : unit = uOnoff
     · rw [if_pos h2, if_pos h2]
       have := rel_parseWith onoffCell (·.repOnoff) "onoff" cells f g h
       show RelE (Except.ok (ColVals.onoff (parseOnoff cells f).1, (parseOnoff cells f).2))
@@ -129,7 +129,7 @@ theorem rel_parseColumn (ext : Ext) (unit : Str) (cells : List Cell) (f g : Fixe
       unfold parseOnoff
       exact ⟨by rw [this.1], this.2⟩
     · rw [if_neg h2, if_neg h2]
-      by_cases h3 : unit = "datetime".toList
+      by_cases h3 : unit = uDatetime
       · rw [if_pos h3, if_pos h3]
         have := rel_parseDatetime ext cells f g h
         cases h1 : parseDatetime ext cells f <;> cases h2 : parseDatetime ext cells g <;>
@@ -750,32 +750,35 @@ def Ending.isExhausted : Ending → Bool
 def summary (r : Result) : List (BT × Nat × Str) × List Nat × Bool :=
   (r.blocks.map (fun d => (d.ty, d.first, Spec.offeredName d)), r.issues, Ending.isExhausted r.ending)
 
-/-- the unfiltered read stops at the malformed table `**bad` (no destination row) … -/
-example : summary (parseBlocks (exCfg .pdtable none .raising) (exRows []) exFixer) =
+/-- malformed content: no unit row -/
+def badA : List Row := [[.str "all".toList], [.str "x".toList]]
+/-- other malformed content of the same number of rows: a number where the destinations belong, no header -/
+def badB : List Row := [[.int 5 "5.0".toList, .none], [.str "garbage".toList, .str "datetime".toList]]
+
+/-- the unfiltered read stops at the malformed table `**bad` … -/
+example : summary (parseBlocks (exCfg .pdtable none .raising) (exRows badA) exFixer) =
     ([(.metadata, 0, []), (.table, 1, "a".toList)], [7], false) := by decide
 
 /-- … the filtered read does not: `**bad` is rejected, hence never parsed; the transposed table is offered as `c` -/
-example : summary (parseBlocks (exCfg .pdtable (some exFilter) .raising) (exRows []) exFixer) =
-    ([(.table, 1, "a".toList), (.table, 9, "c".toList)], [], true) := by decide
+example : summary (parseBlocks (exCfg .pdtable (some exFilter) .raising) (exRows badA) exFixer) =
+    ([(.table, 1, "a".toList), (.table, 11, "c".toList)], [], true) := by decide
 
-example : summary (parseBlocks (exCfg .jsondata (some exFilter) .raising) (exRows []) exFixer) =
-    ([(.table, 1, "a".toList), (.table, 9, "c".toList)], [], true) := by decide
+example : summary (parseBlocks (exCfg .jsondata (some exFilter) .raising) (exRows badA) exFixer) =
+    ([(.table, 1, "a".toList), (.table, 11, "c".toList)], [], true) := by decide
 
-example : summary (parseBlocks (exCfg .cellgrid (some exFilter) .raising) (exRows []) exFixer) =
-    ([(.table, 1, "a".toList), (.table, 9, "c".toList)], [], true) := by decide
+example : summary (parseBlocks (exCfg .cellgrid (some exFilter) .raising) (exRows badA) exFixer) =
+    ([(.table, 1, "a".toList), (.table, 11, "c".toList)], [], true) := by decide
 
 /-- the hypothesis of `filter_exact` is satisfiable on this input (collecting tracker: the read runs to the end) -/
-example : summary (parseBlocks (unfiltered (exCfg .pdtable (some exFilter) .collecting)) (exRows []) exFixer) =
-    ([(.metadata, 0, []), (.table, 1, "a".toList), (.table, 9, "c".toList), (.directive, 11, [])], [7], true) := by
+example : summary (parseBlocks (unfiltered (exCfg .pdtable (some exFilter) .collecting)) (exRows badA) exFixer) =
+    ([(.metadata, 0, []), (.table, 1, "a".toList), (.table, 11, "c".toList), (.directive, 15, [])], [7], true) := by
   decide
 
-/-- the hypothesis of `rejected_content_irrelevant` is satisfiable: other (malformed, longer) content inside the
-    rejected table — the two reads are equal -/
+/-- the hypothesis of `rejected_content_irrelevant` is satisfiable: other malformed content inside the rejected
+    table — the two reads are equal -/
 example :
-    parseBlocks (exCfg .pdtable (some exFilter) .raising) (exRows []) exFixer =
-    parseBlocks (exCfg .pdtable (some exFilter) .raising)
-      (exRows [[.str "all".toList], [.int 5 "5.0".toList, .none], [.str "datetime".toList], [.str "garbage".toList]])
-      exFixer :=
+    parseBlocks (exCfg .pdtable (some exFilter) .raising) (exRows badA) exFixer =
+    parseBlocks (exCfg .pdtable (some exFilter) .raising) (exRows badB) exFixer :=
   rejected_content_irrelevant_rows _ _ _ _ (agree_of_agreeB _ _ _ (by decide))
 
 end Pdt.C11
